@@ -136,6 +136,15 @@ func Slices(cols ...interface{}) Frame {
 		}
 		f.data[i] = newData(v)
 	}
+	if f.len < f.cap {
+		// The columns have spare capacity, and the frame may be extended
+		// up to f.cap (Slice, Ensure): make each column value represent
+		// the whole data slice, as in frames returned by Make, so that
+		// every row of such a view can be addressed.
+		for i := range f.data {
+			f.data[i] = newData(f.data[i].val.Slice3(0, f.cap, f.cap))
+		}
+	}
 	return f
 }
 
@@ -160,6 +169,15 @@ func Values(cols []reflect.Value) Frame {
 			f.cap = cap
 		}
 		f.data[i] = newData(v)
+	}
+	if f.len < f.cap {
+		// The columns have spare capacity, and the frame may be extended
+		// up to f.cap (Slice, Ensure): make each column value represent
+		// the whole data slice, as in frames returned by Make, so that
+		// every row of such a view can be addressed.
+		for i := range f.data {
+			f.data[i] = newData(f.data[i].val.Slice3(0, f.cap, f.cap))
+		}
 	}
 	return f
 }
